@@ -19,8 +19,7 @@ CONSTANTS
   Table,      \* constraint table in force (function key -> capacity)
   Compat,     \* BOOLEAN: the compatible=True flag
   MaxLabel,   \* largest legal ring-closure label (99; scaled down in one config)
-  KnownSyms,  \* symbols whose classification is precomputed (any set; only a cache)
-  Modern(_)   \* symbol -> modern symbol (identity unless the Compat module is plugged in)
+  KnownSyms   \* symbols whose classification is precomputed (any set; only a cache)
 
 INF == 1000000000
 
@@ -28,7 +27,7 @@ INF == 1000000000
 (* Symbol information.  SymOf applies the compatibility mapping; Info is   *)
 (* the classified symbol with the atom's capacity under Table resolved.    *)
 (***************************************************************************)
-SymOf(tok) == IF Compat THEN Modern(tok) ELSE tok
+SymOf(tok) == IF Compat THEN Modernize(tok) ELSE tok
 RawInfo(sym) ==
   LET c == Classify(sym)
   IN IF c.k = "atom"
